@@ -84,9 +84,21 @@ def regen(only=None):
 
 
 def ensure_makefile():
-    mk = os.path.join(COQ, "Makefile")
+    """_CoqProject lists every .v under theories/ gen/ props/ (regenerated when the file set changes)"""
+    files = []
+    for d in ("theories", "gen", "props"):
+        dd = os.path.join(COQ, d)
+        if os.path.isdir(dd):
+            files += sorted(f"{d}/{f}" for f in os.listdir(dd) if f.endswith(".v") and not f.startswith("."))
+    txt = ("-Q theories J2O\n-Q gen J2OGen\n-Q props J2OProps\n"
+           "-arg -w -arg -notation-overridden,-deprecated-hint-without-locality,-deprecated-instance-without-locality\n"
+           + "\n".join(files) + "\n")
     cp = os.path.join(COQ, "_CoqProject")
-    if not os.path.exists(mk) or os.path.getmtime(mk) < os.path.getmtime(cp):
+    mk = os.path.join(COQ, "Makefile")
+    old = open(cp).read() if os.path.exists(cp) else None
+    if old != txt or not os.path.exists(mk):
+        with open(cp, "w") as fh:
+            fh.write(txt)
         run(["coq_makefile", "-f", "_CoqProject", "-o", "Makefile"], 60, cwd=COQ)
 
 
